@@ -72,6 +72,7 @@ def _lit(resp, name):
 def items(m: int, o: int, n: int) -> bool:
     """
     pre: 0 <= m < 9 and 0 <= o <= 12 and 0 <= n <= 12
+    pre: core.PARAMS.get("m") is None or m == core.PARAMS["m"]
     post: _
     """
     return held(_items, {"m": core.pick(m, 0, 9), "o": o, "n": n})
@@ -99,7 +100,7 @@ def _items(m, o, n):
     check(size == len(whole), f"C16/{tag}/rfc822_size_differs_from_body_octets", size=size, octets=len(whole), m=m)
     check(hdr + txt == whole, f"C16/{tag}/header_plus_text_is_not_the_whole_message", m=m, whole=repr(whole), hdr=repr(hdr), txt=repr(txt))
     for part in (whole, hdr, txt):
-        check(part.endswith(b"\r\n"), f"C16/{tag}/item_not_crlf_terminated", m=m, part=repr(part[-20:]))
+        check(part == b"" or part.endswith(b"\r\n"), f"C16/{tag}/item_not_crlf_terminated", m=m, part=repr(part[-20:]))
         check(b"\n" not in part.replace(b"\r\n", b""), f"C16/{tag}/bare_lf_in_item", m=m)
     # RFC822 family equals the BODY forms
     r2, data2, ok2, why2, resp2 = _fetch(w, S, "(RFC822 RFC822.HEADER RFC822.TEXT)")
@@ -170,6 +171,151 @@ def _copy_identity(m):
     w.shutdown()
 
 
+def _norm_lines(b):
+    return b.replace(b"\r\n", b"\n").replace(b"\n", b"\r\n")
+
+
+def _fields(raw):
+    """header fields (name lower-cased, unfolded value) and body of a message text"""
+    raw = _norm_lines(raw)
+    head, sep, body = raw.partition(b"\r\n\r\n")
+    if not sep and head.endswith(b"\r\n"):
+        head = head[:-2]
+    out = []
+    for ln in head.split(b"\r\n"):
+        if ln[:1] in (b" ", b"\t") and out:
+            out[-1][1] += b" " + ln.strip()
+        elif b":" in ln:
+            k, _, v = ln.partition(b":")
+            out.append([k.strip().lower(), v.strip()])
+    return [tuple(x) for x in out], body
+
+
+def _leaves(raw):
+    """(content type, header fields, payload) of every non-multipart part, in order"""
+    import email
+
+    out = []
+    for part in email.message_from_bytes(_norm_lines(raw)).walk():
+        if part.is_multipart():
+            out.append((part.get_content_type(), len(part.get_payload())))
+        else:
+            pl = part.get_payload()
+            out.append((part.get_content_type(), [(k.lower(), v) for k, v in part.items()], strip_nl(pl.encode("latin-1", "surrogateescape") if isinstance(pl, str) else pl)))
+    return out
+
+
+def strip_nl(b):
+    return b[:-2] if b.endswith(b"\r\n") else b
+
+
+def append_fidelity(m: int) -> bool:
+    """
+    pre: 0 <= m < 9
+    post: _
+    """
+    return held(_append_fidelity, {"m": core.pick(m, 0, 9)})
+
+
+def _append_fidelity(m):
+    """A message stored with APPEND comes back with the same header fields and the same body content."""
+    tag = "append_fidelity"
+    w = World()
+    TREE.real_messages = True
+    mb = w.mailbox("inbox", [2], [3], {"Seen": {2}}, contents=[MENU[0]], mtimes=[1700000000])
+    S = w.session("S")
+    S.select_direct(mb)
+    src = MENU[m]
+    text = src.decode("latin-1")
+    r = w.issue(S, "t0 APPEND inbox {%d}\r\n%s" % (len(text), text))
+    S.new_lines()
+    reached()
+    check(r["status"] == "ok" and r["result"][0] == "ok", f"C16/{tag}/append_failed", result=repr(r["result"]), m=m)
+    r = w.issue(S, "t1 FETCH 2 (RFC822.SIZE BODY.PEEK[] BODY.PEEK[HEADER] BODY.PEEK[TEXT])")
+    data = "".join(S.new_lines()).encode("latin-1", "replace")
+    ok, why, resp = RR.check_stream(data)
+    check(ok, f"C16/{tag}/response_not_wellformed", why=why)
+    whole, hdr, txt, size = _lit(resp, "BODY[]"), _lit(resp, "BODY[HEADER]"), _lit(resp, "BODY[TEXT]"), _lit_num(resp, "RFC822.SIZE")
+    check(whole is not None and hdr is not None and txt is not None and size is not None, f"C16/{tag}/items_missing", data=repr(data[:200]))
+    check(size == len(whole), f"C16/{tag}/rfc822_size_differs_from_body_octets", size=size, octets=len(whole), m=m)
+    if True:
+        check(hdr + txt == whole, f"C16/{tag}/header_plus_text_is_not_the_whole_message", m=m, whole=repr(whole), hdr=repr(hdr), txt=repr(txt))
+    f_src, b_src = _fields(src)
+    f_got, b_got = _fields(whole)
+    check(f_got == f_src, f"C16/{tag}/header_fields_differ_from_appended", m=m, sent=repr(f_src), got=repr(f_got))
+    strip = lambda b: b[:-2] if b.endswith(b"\r\n") else b
+    if b"multipart/" in src.split(b"\r\n\r\n")[0].lower():
+        # the line break before a boundary belongs to the boundary: compare the parts, not the glue between them
+        check(_leaves(whole) == _leaves(src), f"C16/{tag}/body_differs_from_appended", m=m, sent=repr(_leaves(src)), got=repr(_leaves(whole)))
+    else:
+        check(strip(b_got) == strip(b_src), f"C16/{tag}/body_differs_from_appended", m=m, sent=repr(b_src), got=repr(b_got))
+    w.shutdown()
+
+
+def key_reuse(m1: int, m2: int, via: int, pre: bool) -> bool:
+    """
+    pre: 0 <= m1 < 9 and 0 <= m2 < 9 and 0 <= via <= 2
+    pre: core.PARAMS.get("via") is None or via == core.PARAMS["via"]
+    post: _
+    """
+    return held(_key_reuse, {"m1": core.pick(m1, 0, 9), "m2": core.pick(m2, 0, 9), "via": core.pick(via, 0, 3), "pre": bool(core.pick(int(pre), 0, 2))})
+
+
+def _key_reuse(m1, m2, via, pre):
+    """
+    The size reported for a message is the size of *that* message for every
+    history: the last message is measured, expunged, and another message is
+    stored (APPEND / COPY / delivery), which MH files under the same key.
+    """
+    tag = "key_reuse"
+    w = World()
+    TREE.real_messages = True
+    mb = w.mailbox("inbox", [2, 3], [3, 6], {"Seen": {2, 3}}, contents=[MENU[0], MENU[m1]], mtimes=[1700000000, 1700000001])
+    other = w.mailbox("other", [1], [1], {"Seen": {1}}, contents=[MENU[m2]], mtimes=[1700000002])
+    S = w.session("S")
+    S.select_direct(mb)
+    if pre:
+        r = w.issue(S, "p1 FETCH 2 (RFC822.SIZE)")
+        r = w.issue(S, "p2 SEARCH LARGER 1")
+        S.new_lines()
+    r = w.issue(S, "d1 STORE 2 +FLAGS.SILENT (\\Deleted)")
+    r = w.issue(S, "d2 EXPUNGE")
+    S.new_lines()
+    check(r["status"] == "ok" and r["result"][0] == "ok" and mb.uids == [3], f"C16/{tag}/setup_expunge_failed", result=repr(r["result"]))
+    if via == 0:
+        text = MENU[m2].decode("latin-1")
+        r = w.issue(S, "a1 APPEND inbox {%d}\r\n%s" % (len(text), text))
+    elif via == 1:
+        T = w.session("T")
+        T.select_direct(other)
+        r = w.issue(T, "a1 COPY 1 inbox")
+    else:
+        d = TREE.dirs[TREE.norm(mb.mailbox._path)]
+        TREE.clock += 3
+        d.keys.append(d.keys[-1] + 1)
+        d.content.append(MENU[m2])
+        d.mtimes.append(TREE.clock)
+        d.mtime = TREE.clock
+        r = w.issue(S, "a1 CHECK")
+    S.new_lines()
+    reached()
+    check(r["status"] == "ok" and r["result"][0] == "ok" and len(mb.uids) == 2, f"C16/{tag}/store_of_second_message_failed", result=repr(r["result"]), via=via)
+    r = w.issue(S, "t1 FETCH 2 (RFC822.SIZE BODY.PEEK[])")
+    data = "".join(S.new_lines()).encode("latin-1", "replace")
+    ok, why, resp = RR.check_stream(data)
+    check(ok, f"C16/{tag}/response_not_wellformed", why=why)
+    whole, size = _lit(resp, "BODY[]"), _lit_num(resp, "RFC822.SIZE")
+    check(whole is not None and size is not None, f"C16/{tag}/items_missing", data=repr(data[:200]))
+    check(size == len(whole), f"C16/{tag}/rfc822_size_differs_from_body_octets", size=size, octets=len(whole), m1=m1, m2=m2, via=via, pre=pre)
+    # SEARCH LARGER / SMALLER use the same size
+    n = len(whole)
+    r = w.issue(S, f"s1 SEARCH LARGER {n - 1} SMALLER {n + 1}")
+    lines = S.new_lines()
+    hits = [ln for ln in lines if ln.startswith("* SEARCH")]
+    check(len(hits) == 1 and "2" in hits[0].split()[2:], f"C16/{tag}/search_size_differs_from_body_octets", octets=n, lines=lines[:4], m1=m1, m2=m2, via=via)
+    w.shutdown()
+
+
 def desugar(k: int) -> bool:
     """
     pre: 0 <= k < 4
@@ -195,16 +341,25 @@ def _desugar(k):
 
 
 def jobs(tier):
-    T = 400 if tier == "quick" else 1500
-    return [
-        {"name": "items", "fn": "items", "params": {}, "timeout": T, "per_path": 120},
+    q = tier == "quick"
+    T = 400 if q else 1500
+    js = []
+    for m in range(9):
+        js.append({"name": f"items[m={m}]", "fn": "items", "params": {"m": m}, "timeout": T, "per_path": 120})
+    js += [
         {"name": "copy_identity", "fn": "copy_identity", "params": {}, "timeout": T, "per_path": 120},
+        {"name": "append_fidelity", "fn": "append_fidelity", "params": {}, "timeout": T, "per_path": 120},
         {"name": "desugar", "fn": "desugar", "params": {}, "timeout": 120, "per_path": 60},
     ]
+    for via in (0, 1, 2):
+        js.append({"name": f"key_reuse[via={via}]", "fn": "key_reuse", "params": {"via": via}, "timeout": T, "per_path": 120})
+    return js
 
 
 SAMPLES = [
     {"fn": "items", "params": {}, "args": {"m": 2, "o": 3, "n": 7}},
     {"fn": "copy_identity", "params": {}, "args": {"m": 4}},
     {"fn": "desugar", "params": {}, "args": {"k": 1}},
+    {"fn": "append_fidelity", "params": {}, "args": {"m": 2}},
+    {"fn": "key_reuse", "params": {"via": 0}, "args": {"m1": 2, "m2": 5, "via": 0, "pre": True}},
 ]
